@@ -488,6 +488,63 @@ func runStreamBuf(r *core.Run) {
 	for _, f := range unit {
 		inUnit[f] = true
 	}
+	isSwapShaped := func(g *ssa.Function) bool {
+		sig := g.Signature
+		if sig.Recv() == nil || sig.Params().Len() != 2 || sig.Results().Len() != 1 {
+			return false
+		}
+		_, p0 := sig.Params().At(0).Type().Underlying().(*types.Slice)
+		_, r0 := sig.Results().At(0).Type().Underlying().(*types.Slice)
+		return p0 && r0 && isIntType(sig.Params().At(1).Type())
+	}
+	// wrappers of the swap on the pool's side (func (p *pool) next(buf, start, need) { ... p.swap(buf[:start], size) ... })
+	// belong to the refill code: unexported methods of the package, called from the unit, that call a swap-shaped method
+	for i := 0; i < len(unit); i++ {
+		for _, b := range unit[i].Blocks {
+			for _, in := range b.Instrs {
+				c, ok := in.(*ssa.Call)
+				if !ok || c.Call.IsInvoke() {
+					continue
+				}
+				g := c.Call.StaticCallee()
+				if g == nil || inUnit[g] || g.Signature.Recv() == nil || fnPkg(g) != fnPkg(unit[0]) || g.Object() == nil || g.Object().Exported() || isSwapShaped(g) {
+					continue
+				}
+				wraps := false
+				for _, gb := range g.Blocks {
+					for _, gi := range gb.Instrs {
+						if gc, isC := gi.(*ssa.Call); isC && !gc.Call.IsInvoke() {
+							if h := gc.Call.StaticCallee(); h != nil && h != g && h.Signature.Recv() != nil && core.InModule(fnPkg(h)) && isSwapShaped(h) {
+								wraps = true
+							}
+						}
+					}
+				}
+				if wraps {
+					inUnit[g] = true
+					unit = append(unit, g)
+				}
+			}
+		}
+	}
+	// resolveArg: a parameter of a unit function with a single call site stands for the argument passed there
+	var resolveArg func(v ssa.Value, depth int) ssa.Value
+	resolveArg = func(v ssa.Value, depth int) ssa.Value {
+		p, ok := v.(*ssa.Parameter)
+		if !ok || depth > 3 || !inUnit[p.Parent()] {
+			return v
+		}
+		sites := callSitesOf(r, p.Parent())
+		if len(sites) != 1 {
+			return v
+		}
+		for i, q := range p.Parent().Params {
+			if q == p && i < len(sites[0].Call.Args) {
+				return resolveArg(sites[0].Call.Args[i], depth+1)
+			}
+		}
+		return v
+	}
 	// the pool's swap: the call, inside the unit, of a method on the pool object that takes ([]byte, int) and returns []byte
 	var swaps []*ssa.Call
 	for _, f := range unit {
@@ -501,13 +558,8 @@ func runStreamBuf(r *core.Run) {
 				if g == nil || g.Signature.Recv() == nil || inUnit[g] || !core.InModule(fnPkg(g)) {
 					continue
 				}
-				sig := g.Signature
-				if sig.Params().Len() == 2 && sig.Results().Len() == 1 {
-					_, p0 := sig.Params().At(0).Type().Underlying().(*types.Slice)
-					_, r0 := sig.Results().At(0).Type().Underlying().(*types.Slice)
-					if p0 && r0 && isIntType(sig.Params().At(1).Type()) {
-						swaps = append(swaps, c)
-					}
+				if isSwapShaped(g) {
+					swaps = append(swaps, c)
 				}
 			}
 		}
@@ -518,11 +570,14 @@ func runStreamBuf(r *core.Run) {
 	}
 	sw := swaps[0]
 	r.OK("read obtains its buffer from the pool exactly once", sw.Pos(), "")
-	z := sw.Parent().Params[0].Name()
 	// (1) retired block is z.buf[:z.start]
 	okArg := false
-	if sl, ok := sw.Call.Args[1].(*ssa.Slice); ok && canon(sl.X) == z+"."+sr.buf && sl.Low == nil && sl.High != nil {
-		okArg = linOf(sl.High).equal(linAtom(z + "." + sr.start))
+	if sl, ok := sw.Call.Args[1].(*ssa.Slice); ok && sl.Low == nil && sl.High != nil {
+		x, hi := resolveArg(sl.X, 0), resolveArg(sl.High, 0)
+		if xi, isI := x.(ssa.Instruction); isI && xi.Parent() != nil && len(xi.Parent().Params) > 0 && recvName(xi.Parent()) == "StreamLexer" {
+			z := xi.Parent().Params[0].Name()
+			okArg = canon(x) == z+"."+sr.buf && linOf(hi).equal(linAtom(z+"."+sr.start))
+		}
 	}
 	r.Check(okArg, "read retires exactly buf[:start]", sw.Pos(), "", "the block handed to the pool is not z.buf[:z.start]: the pool counts freed bytes against len(block); a longer block can never be fully freed (memory grows with the stream), a shorter one is reused while tokens still point into it")
 	// (2) every write into buffer memory targets memory derived from the slice returned by swap
